@@ -303,7 +303,7 @@ func genMemory(r *vf.Rng) Input {
 	}
 	gas := uint64(100000)
 	if r.Chance(15) {
-		gas = uint64(r.Intn(400))
+		gas = uint64(1 + r.Intn(400))
 	}
 	return Input{Code: hex.EncodeToString(code), Gas: gas, Pool: randPool(r), Class: "memory"}
 }
@@ -331,7 +331,7 @@ func genMalformed(r *vf.Rng) Input {
 	case 2: // out of gas somewhere
 		in := genProgram(r, 40)
 		code = in.code()
-		gas = uint64(r.Intn(120))
+		gas = uint64(1 + r.Intn(120)) // 0 would mean "unlimited" to runtime.Call
 		class = "oog"
 	case 3: // truncated push at the end of the code
 		in := genProgram(r, 10)
@@ -367,6 +367,9 @@ func genMalformed(r *vf.Rng) Input {
 		used := 10000000 - o.GasLeft
 		if o.Status == StOK && used > 0 {
 			gas = used - uint64(r.Intn(2))
+			if gas == 0 {
+				gas = 1
+			}
 			class = "gas_boundary"
 		}
 	default: // random bytes restricted to the modelled alphabet
@@ -622,6 +625,9 @@ func gen(seed uint64, n int, outDir, corpusDir string) {
 	distinct := map[string]bool{}
 	opsSeen := map[string]int{}
 	add := func(in Input) {
+		if in.Gas == 0 { // runtime.Call reads 0 as "no limit"
+			in.Gas = 1
+		}
 		if in.Pool == nil {
 			in.Pool = []string{}
 		}
@@ -673,7 +679,7 @@ func gen(seed uint64, n int, outDir, corpusDir string) {
 		}
 	}
 	var sb strings.Builder
-	sb.WriteString("From Coq Require Import Uint63.\nFrom VF.C15 Require Import Model.\nFrom VF.gen Require Import C15Table C15Ops.\n")
+	sb.WriteString("From Coq Require Import Uint63.\nFrom VF.C15 Require Import Model Transport.\nFrom VF.gen Require Import C15Table C15Ops.\n")
 	var bs []string
 	for _, b := range bigSeeds {
 		bs = append(bs, vf.BigZ(b))
@@ -722,6 +728,9 @@ func replay(file string) {
 	in := Input{Code: h.Code, Gas: h.Gas, Pool: h.Pool}
 	if h.Input != nil && h.Input.Code != "" {
 		in = *h.Input
+	}
+	if in.Gas == 0 { // runtime.Call reads 0 as "no limit"
+		in.Gas = 1
 	}
 	code := in.code()
 	fmt.Println("program:", disasm(code))
